@@ -18,7 +18,7 @@ theorem sum_map_const {β} (f : β → Nat) (n : Nat) : ∀ (l : List β), (∀ 
 /-! ### `stack` -/
 
 /-- **`stack` at position `k = P.length`** of inputs of one shape `P ++ n :: Q` -/
-theorem stack_cut (zero : α) (P Q : List Nat) (n : Nat) (hP : 0 ∉ P) (hQ : 0 ∉ Q) (a0 : Arr α) (rest : List (Arr α))
+theorem stack_cut (zero : α) (P Q : List Nat) (n : Nat) (a0 : Arr α) (rest : List (Arr α))
     (h : ∀ b ∈ a0 :: rest, b.WF ∧ b.shape = P ++ n :: Q) :
     ∃ r, stack (a0 :: rest) zero (some P.length) = .ok r ∧ r.shape = P ++ (rest.length + 1) :: n :: Q ∧ r.WF ∧
       ∀ i (hi : i < (a0 :: rest).length) p q j, inRange P p = true → inRange Q q = true → j < n →
@@ -27,7 +27,7 @@ theorem stack_cut (zero : α) (P Q : List Nat) (n : Nat) (hP : 0 ∉ P) (hQ : 0 
   have hcut : ∀ b ∈ a0 :: rest, b.WF ∧ b.shape = P ++ axLen P.length b :: Q := by
     intro b hb; rw [hax b hb]; exact h b hb
   obtain ⟨hw0, hs0⟩ := hcut a0 List.mem_cons_self
-  obtain ⟨r, h1, h2, h3, h4⟩ := foldAppend_cut zero P Q hP hQ rest a0 hw0 hs0 (fun b hb => hcut b (List.mem_cons_of_mem _ hb))
+  obtain ⟨r, h1, h2, h3, h4⟩ := foldAppend_cut zero P Q rest a0 hw0 hs0 (fun b hb => hcut b (List.mem_cons_of_mem _ hb))
   rw [sum_map_const _ n _ hax] at h2
   have hs0' : a0.shape = P ++ n :: Q := (h a0 List.mem_cons_self).2
   have hlen : (a0 :: rest).length = rest.length + 1 := rfl
@@ -63,17 +63,16 @@ theorem stack_cut (zero : α) (P Q : List Nat) (n : Nat) (hP : 0 ∉ P) (hQ : 0 
     ring
 
 theorem stack_coord (zero : α) (k : Nat) (a0 : Arr α) (rest : List (Arr α)) (hk : k < a0.ndim)
-    (hnz : 0 ∉ a0.shape.eraseIdx k) (h : ∀ b ∈ a0 :: rest, b.WF ∧ b.shape = a0.shape) :
+    (h : ∀ b ∈ a0 :: rest, b.WF ∧ b.shape = a0.shape) :
     ∃ r, stack (a0 :: rest) zero (some k) = .ok r ∧ r.shape = a0.shape.insertIdx k (rest.length + 1) ∧ r.WF ∧
       ∀ i (hi : i < (a0 :: rest).length) c, inRange a0.shape c = true →
         r.get? (c.insertIdx k i) = ((a0 :: rest)[i]).get? c := by
   obtain ⟨hs, hPl⟩ := shape_cut a0.shape k hk
-  obtain ⟨hP, hQ⟩ := not_mem_of_eraseIdx _ _ hnz
-  generalize a0.shape.take k = P at hs hPl hP
-  generalize a0.shape.drop (k + 1) = Q at hs hQ
+  generalize a0.shape.take k = P at hs hPl
+  generalize a0.shape.drop (k + 1) = Q at hs
   generalize a0.shape.getD k 0 = n at hs
   subst hPl
-  obtain ⟨r, h1, h2, h3, h4⟩ := stack_cut zero P Q n hP hQ a0 rest (fun b hb => by rw [← hs]; exact h b hb)
+  obtain ⟨r, h1, h2, h3, h4⟩ := stack_cut zero P Q n a0 rest (fun b hb => by rw [← hs]; exact h b hb)
   refine ⟨r, h1, by rw [h2, hs, insertIdx_mid], h3, ?_⟩
   intro i hi c hc
   rw [hs] at hc
@@ -114,11 +113,11 @@ theorem sum_map_mul {β} (f : β → Nat) (m : Nat) : ∀ (l : List β), (l.map 
   | x :: xs => by simp only [List.map_cons, List.sum_cons, sum_map_mul f m xs]; ring
 
 /-- **`concatenate` along axis 0 chains the element lists** -/
-theorem concatenate_axis0 (zero : α) (Q : List Nat) (hQ : 0 ∉ Q) (a0 : Arr α) (rest : List (Arr α))
+theorem concatenate_axis0 (zero : α) (Q : List Nat) (a0 : Arr α) (rest : List (Arr α))
     (h : ∀ b ∈ a0 :: rest, b.WF ∧ b.shape = axLen 0 b :: Q) :
     concatenate (a0 :: rest) zero (some 0) =
       .ok ⟨(a0 :: rest).flatMap (·.elems), (((a0 :: rest).map (axLen 0)).sum) :: Q⟩ := by
-  obtain ⟨r, h1, h2, h3, h4⟩ := concatenate_cut zero [] Q (by simp) hQ a0 rest h
+  obtain ⟨r, h1, h2, h3, h4⟩ := concatenate_cut zero [] Q a0 rest h
   simp only [List.length_nil, List.nil_append] at h1 h2 h4
   rw [h1]; congr 1
   generalize a0 :: rest = arrs at *
